@@ -230,4 +230,51 @@ class Pairs(object):
         return run_slot(slot, text, True, bool(case['id']), sig)
 
 
-FAMILIES = [Slots(), Pairs()]
+class SwitchHistories(object):
+    name = 'gentexts-histories'
+    describe = ('ONE MibCompiler (one code generator) compiles the same module repeatedly with genTexts in {True, False, omitted}: '
+                'every sequence of length <=3; after every call the gated texts are present iff that call asked for them; both back ends')
+    VALUES = [True, False, None]
+
+    def blocks(self, tier):
+        return [{'backend': b} for b in ('json', 'pysnmp')]
+
+    def cases(self, block, tier):
+        import itertools
+        for ln in (1, 2, 3):
+            for seq in itertools.product(range(3), repeat=ln):
+                yield {'backend': block['backend'], 'seq': list(seq)}
+
+    def run_case(self, case):
+        decls = build('ot', 'descr', 'Gated description text.')
+        decls[-1]['ref'] = 'Gated reference text.'
+        mod = refir.finish_module({'name': 'TEST-MIB', 'decls': decls})
+        src = mibspec.pretty([mod])
+        writer = env.CaptureWriter()
+        comp = env.MibCompiler(env.fresh_parser('smiV2'), env.make_codegen(case['backend']), writer)
+        texts = env.base_texts()
+        texts['TEST-MIB'] = src
+        comp.addSources(env.DictReader(texts))
+        comp.addSearchers(env.StubSearcher(*env.BASE_NAMES))
+        vs = []
+        obs = []
+        for pos, vi in enumerate(case['seq']):
+            val = self.VALUES[vi]
+            del writer.written[:]
+            opts = {} if val is None else {'genTexts': val}
+            res = comp.compile('TEST-MIB', **opts)
+            data = dict((n, d) for n, d, _ in writer.written).get('TEST-MIB', '')
+            present = 'Gated description text.' in data, 'Gated reference text.' in data
+            obs.append(present)
+            want = bool(val)
+            if res.get('TEST-MIB') != 'compiled' or present != (want, want):
+                vs.append(('C15|gentexts-history|%s|texts-%s-after-%s' % (
+                    case['backend'], 'emitted-unasked' if any(present) and not want else 'missing',
+                    'nothing' if pos == 0 else 'genTexts=%s' % self.VALUES[case['seq'][pos - 1]]),
+                    'sequence %r position %d: status %s, description/reference present %r, asked %r' % (
+                        [self.VALUES[i] for i in case['seq']], pos, res.get('TEST-MIB'), present, val)))
+                break
+        return repr(obs), vs, len(case['seq'])
+
+
+FAMILIES = [Slots(), Pairs(), SwitchHistories()]
